@@ -130,8 +130,8 @@ fn check(id: &str, tier: Tier) -> i32 {
     for scn in scns {
         let n = std::env::var("VERIF_RUNS").ok().and_then(|s| s.parse::<u64>().ok()).unwrap_or_else(|| scn.runs(tier));
         let guard = match tier {
-            Tier::Quick => 600.0,
-            Tier::Thorough => 7200.0,
+            Tier::Quick => 150.0,
+            Tier::Thorough => 3600.0,
         };
         let r = run_batch(scn.as_ref(), tier, seed, n, nworkers, false, guard);
         println!(
